@@ -1195,6 +1195,7 @@ def guards():
     rows = []
     ctor_rows = set()
     fn_stack = []
+    mult_stack = []
     locals_stack = []
     localnames_stack = []
 
@@ -1238,9 +1239,23 @@ def guards():
                                          and isinstance(a_.targets[0], ast.Name) and cnt.get(a_.targets[0].id) == 1 and a_.targets[0].id not in argn
                                          and (not isinstance(a_.value, ast.Call) or ast.unparse(a_.value.func).startswith("self."))})
                     localnames_stack.append(set(cnt) - argn)
+                    # a comparison stored in a local boolean and then tested n times counts n times (the table is a multiset of *tests*):
+                    # computing a repeated condition once, or inlining such a local at its uses, leaves the table unchanged
+                    loads_ = {}
+                    for a_ in ast.walk(ch):
+                        if isinstance(a_, ast.Name) and isinstance(a_.ctx, ast.Load):
+                            loads_[a_.id] = loads_.get(a_.id, 0) + 1
+                    mm_ = {}
+                    for a_ in ast.walk(ch):
+                        if isinstance(a_, ast.Assign) and len(a_.targets) == 1 and isinstance(a_.targets[0], ast.Name) and cnt.get(a_.targets[0].id) == 1:
+                            for c_ in ast.walk(a_.value):
+                                if isinstance(c_, ast.Compare):
+                                    mm_[id(c_)] = max(1, loads_.get(a_.targets[0].id, 1))
+                    mult_stack.append(mm_)
                     fn_stack.append(ch.name)
                     visit(ch, stack)
                     fn_stack.pop()
+                    mult_stack.pop()
                     locals_stack.pop()
                     localnames_stack.pop()
                     continue
@@ -1294,7 +1309,8 @@ def guards():
                         order_.setdefault(n_.id, f"_{len(order_) + 1}")
                         n_.id = order_[n_.id]
                 txt = ast.unparse(tree_)
-                rows.append((f"{rel}:{'.'.join(stack)}", f"{txt} {sym[opc]} {rn!r}"))
+                for _rep in range(mult_stack[-1].get(id(c), 1) if mult_stack else 1):
+                    rows.append((f"{rel}:{'.'.join(stack)}", f"{txt} {sym[opc]} {rn!r}"))
                 if fn_stack and fn_stack[0] == "__init__":
                     ctor_rows.add(rows[-1])
             for sub in items:
